@@ -552,7 +552,8 @@ func (e *Engine) Edit(kind string) bool {
 		e.nAdd++
 		t := &Tgt{Pkg: base.Pkg, Name: fmt.Sprintf("n%d", e.nAdd), Extra: r.IntN(100), Gen: fmt.Sprintf("out/n%d.txt", e.nAdd)}
 		for _, d := range ts {
-			if d.Name != "all" && r.IntN(4) == 0 {
+			// (not onto something that reaches //:all, which may come to depend on the new target: the graph stays acyclic)
+			if d.Name != "all" && r.IntN(4) == 0 && !contains(e.Closure(d.Label()), "//:all") {
 				t.Deps = append(t.Deps, d.Label())
 			}
 		}
